@@ -90,8 +90,14 @@ fn text_of_first_token(node: &SyntaxNode) -> TokenText<'_> {
 // }
 
 impl ast::AssignmentStmt {
+    /// The target of the assignment, if it is a plain identifier.
     pub fn identifier(&self) -> Option<ast::Identifier> {
-        support::child(&self.syntax)
+        // The target is the first child. Looking for the first `Identifier` among all
+        // children would return the value of `a[0] = b;` instead.
+        match support::children(self.syntax()).next() {
+            Some(ast::Expr::Identifier(ident)) => Some(ident),
+            _ => None,
+        }
     }
 }
 
